@@ -17,6 +17,8 @@ const KINDS: &[(&str, u8, &str)] = &[
     ("rw-s", 2, "/dev/mem"), ("rw-p", 2, ""), ("r--p", 2, "/usr/lib/libb.so.1"),
     // pseudo-names that differ only in their argument (per-thread stacks of older kernels, named anonymous regions)
     ("rw-p", 0, "[stack:1234]"), ("rw-p", 0, "[stack:77]"), ("rw-p", 0, "[anon:jemalloc]"),
+    // an unlinked file whose own name ends in " (deleted)": only the kernel's marker goes, the name keeps its ending
+    ("r-xp", 0, "/usr/lib/liba.so (deleted) (deleted)"),
 ];
 pub fn perms_bits(p: &str) -> u64 {
     let b = p.as_bytes();
